@@ -27,6 +27,8 @@ class Rig:
         self.lose_req = lose_req or (lambda n, f: False)
         self.chan_resp = chan_resp or (lambda n, f: f)
         self.trace = []
+        self.pending = []
+        self.delivered = []
         self.nreq = 0
         self.nresp = 0
         self.now = 1000.0
@@ -38,10 +40,23 @@ class Rig:
         self.client.responses = HookQueue()
         Rig.current = self
 
+    def _put(self, d):
+        self.delivered.append(bytes(d))
+        self.client.on_response(self.client.tx_cobid, bytearray(d), 0.0)
+
     def deliver(self, frames):
         for r in frames:
             n, self.nresp = self.nresp, self.nresp + 1
             d = self.chan_resp(n, bytes(r))
+            if isinstance(d, tuple):
+                # (frames that arrive now, frames that arrive when the client sends its next frame)
+                now, later = d
+                self.trace.append("*" + bytes(r).hex())
+                for x in now:
+                    self.trace.append("~" + bytes(x).hex())
+                    self._put(x)
+                self.pending += [bytes(x) for x in later]
+                continue
             if d is None:
                 self.trace.append("!" + bytes(r).hex())
                 continue
@@ -49,7 +64,7 @@ class Rig:
                 self.trace.append("~" + bytes(d).hex())
             else:
                 self.trace.append("<" + bytes(r).hex())
-            self.client.on_response(self.client.tx_cobid, bytearray(d), 0.0)
+            self._put(d)
 
     def on_request(self, can_id, data):
         f = bytes(data)
@@ -61,7 +76,19 @@ class Rig:
             self.trace.append("x" + f.hex())
             return
         self.trace.append(">" + f.hex())
+        for x in self.pending:
+            self.trace.append("+" + x.hex())
+            self._put(x)
+        self.pending = []
         self.deliver(self.peer.on_frame(f))
+
+    def between(self, frames=()):
+        """time passes between two transfers: what was held back arrives, then `frames` (the peer's own
+        time-out reaction); all of it is stale by the time the next transfer starts"""
+        for x in self.pending + [bytes(f) for f in frames]:
+            self.trace.append("+" + x.hex())
+            self._put(x)
+        self.pending = []
 
     def on_client_timeout(self):
         self.deliver(self.peer.on_timeout())
